@@ -60,9 +60,15 @@ ASSUMPTIONS = [
     'Python\'s own int/float/Fraction arithmetic, hashing and Fraction->float conversion are trusted.',
 ]
 EXHAUSTIVE = {'quick': True, 'thorough': True}
-FLOORS = {'mixed-type': 0.2, 'redundant': 0.2, 'special': 0.1, 'nan': 0.005, 'inf': 0.01, 'zero-result': 0.005,
-          'equal-diff-encoding': 0.002, 'cancel': 0.0005, 'nondyadic': 0.01, 'unordered': 0.002, 'wide': 2000,
-          'subnormal-float': 50, 'not-representable-float': 50, 'normalize-raises': 100, 'split-inside': 1000}
+_ABS = {'wide': 2000, 'subnormal-float': 50, 'not-representable-float': 50, 'normalize-raises': 100, 'split-inside': 1000,
+        'wide:equal': 1000, 'wide:negation': 1000, 'wide:ulp': 1000, 'wide:same-e': 1000, 'wide:special': 1000}
+FLOORS = {
+    'quick': dict(_ABS, **{'mixed-type': 0.2, 'redundant': 0.2, 'special': 0.1, 'nan': 0.005, 'inf': 0.01, 'zero-result': 0.005,
+                           'equal-diff-encoding': 0.002, 'cancel': 0.0005, 'nondyadic': 0.01, 'unordered': 0.002}),
+    # the specials are a fixed handful while the encodings grow with the tier
+    'thorough': dict(_ABS, **{'mixed-type': 0.2, 'redundant': 0.2, 'special': 0.04, 'nan': 0.003, 'inf': 0.005, 'zero-result': 0.002,
+                              'equal-diff-encoding': 0.002, 'cancel': 0.0005, 'nondyadic': 0.01, 'unordered': 0.002}),
+}
 
 TN = {Float: 'Float', RealFloat: 'RealFloat', int: 'int', float: 'float', Fraction: 'Fraction'}
 CTXS = {'FP64': fp.FP64, 'FP32': fp.FP32, 'FP16': fp.FP16}
